@@ -9,14 +9,14 @@ from ..ctx import jdump, repo_frame_bucket
 from ..shrink import ddmin
 
 SHAPES = ["", "abc", "7", "-3", "1.5", "1e9", "99999999999", "999999999999999999999999", "a/b/c", "../x", "{{PAGENAME}}",
-          "2^99999999", "1e999999999", "9e9e9", "xrY", "9999"]
+          "2^99999999", "1e999999999", "9e9e9", "xrY", "9999", "5 round -999999999", "1e308*10", "9" * 400]
 LANGS = "de en es fr it ja nl no pl pt simple sv".split()
 
 META = dict(
     level="exploration",
     rule=(
         "(1) call matrix: every upper-case/#-attribute of MagicResolver, every magic_nodes.registry key and every alias in "
-        "siteinfo.magicwords of the site x argument count 0..3 x 16 argument shapes (empty, word, small/negative/decimal/exponent/huge "
+        "siteinfo.magicwords of the site x argument count 0..3 x 19 argument shapes (empty, word, small/negative/decimal/exponent/huge "
         "numbers, paths, nested call, expression bombs), with and without ':'; exhaustive for <= 2 arguments on en+de (thorough: all 12 "
         "languages and 3 arguments for the built-in names), sampled for 3; (2) Hypothesis universes: a page + 0-4 templates over the "
         "template alphabet (braces, pipes, parser-function names, include tags, nowiki, unbalanced braces) with self/mutual recursion "
@@ -132,9 +132,9 @@ def tmpl_lexemes(names):
     base = ["{{", "}}", "{{{", "}}}", "|", "=", ":", "#", "[[", "]]", "\n", " ", "a", "B", "1", "2", "-3", "1.5", "x=y", "{{T1", "{{T2", "{{T3", "{{:T1",
             "{{T1}}", "{{T2|a}}", "{{T3|{{T3|x}}}}", "{{{1", "{{{1|", "{{{1}}}", "{{{a}}}", "{{{a|b}}}", "<noinclude>", "</noinclude>", "<includeonly>",
             "</includeonly>", "<onlyinclude>", "</onlyinclude>", "<nowiki>", "</nowiki>", "<!--", "-->", "{{#if:", "{{#ifeq:", "{{#switch:", "{{#expr:",
-            "{{#ifexpr:", "{{#time:", "{{#tag:", "{{#titleparts:", "{{#rel2abs:", "{{#iferror:", "{{#ifexist:", "{{subst:", "{{safesubst:",
+            "{{#ifexpr:", "{{#expr|", "{{#ifexpr|", "{{#if|", "{{#switch|", "{{#ifeq|", "{{lc|", "{{#time:", "{{#tag:", "{{#titleparts:", "{{#rel2abs:", "{{#iferror:", "{{#ifexist:", "{{subst:", "{{safesubst:",
             "{{formatnum:", "{{lc:", "{{ucfirst:", "{{ns:", "{{localurl:", "{{fullurl:", "{{urlencode:", "{{anchorencode:", "{{int:", "{{msg:", "{{raw:",
-            "{{padleft:", "{{padright:", "#default", "*", "{|", "/", "../", "Y-m-d", "xr", "xrY", "+", "^", "mod", "(", ")", "e", "<ref>", "</ref>", "<math>",
+            "{{padleft:", "{{padright:", "#default", "*", "{|", "/", "../", "Y-m-d", "xr", "xrY", "+", "^", "mod", "*", "1e308", "10", "0", "round", "-999999999", "inf", "nan", "(", ")", "e", "<ref>", "</ref>", "<math>",
             "</math>", "\x7f", "", "9999", "99999999999", "1e999", "{{Missing}}", "{{/Sub}}", "{{Page/Sub}}", "{{:A}}", "{{T1|{{T2|{{T3|x}}}}}}"]
     return base + ["{{%s:" % n for n in names] + ["{{%s}}" % n for n in names]
 
@@ -153,7 +153,16 @@ def universe(draw, lex):
     if n >= 3:
         t["T3"] = draw(st.sampled_from(["{{{1}}}{{{1}}}", "{{{1}}}{{{1}}}{{{1}}}", "{{T3|{{{1}}}{{{1}}}}}", body(8)]))
     if n >= 4:
-        t["T4"] = draw(st.sampled_from(["{{T4}}", "{{T1}}{{T4}}", "{{T4|{{T4}}}}", "x{{T2}}"]))
+        # recursion with fan-out, directly and through parser functions that evaluate their arguments themselves
+        t["T4"] = draw(st.sampled_from(["{{T4}}", "{{T1}}{{T4}}", "{{T4|{{T4}}}}", "x{{T2}}", "{{T4}}{{T4}}", "a{{T4}}b{{T4}}c",
+                                        "{{#expr|{{T4}}}}{{#expr|{{T4}}}}", "{{#ifexpr|{{T4}}|{{T4}}|{{T4}}}}{{T4}}", "{{#if:{{T4}}|{{T4}}}}{{T4}}",
+                                        "{{lc:{{T4}}}}{{uc:{{T4}}}}", "{{#switch:{{T4}}|a={{T4}}}}{{T4}}", "{{#iferror:{{T4}}|{{T4}}|{{T4}}}}{{T4}}"]))
+        if draw(st.booleans()):
+            page_prefix = "{{T4}}"
+        else:
+            page_prefix = ""
+    else:
+        page_prefix = ""
     kind = draw(st.integers(0, 5))
     if kind == 0 and "T3" in t:
         depth = draw(st.integers(2, 40))
@@ -164,7 +173,7 @@ def universe(draw, lex):
         page = o * depth + body(4) + c * draw(st.sampled_from([depth, 0, depth // 2]))
     else:
         page = body(20)
-    return dict(text=page, templates=t, lang=draw(st.sampled_from(LANGS)))
+    return dict(text=page_prefix + page, templates=t, lang=draw(st.sampled_from(LANGS)))
 
 
 def run_shard(ctx):
